@@ -98,8 +98,12 @@ def _chunks(descs, nworkers, per_worker=6, maxsize=400):
     n = len(descs)
     if n == 0:
         return []
+    # cases marked heavy (schedule exploration ...) get a chunk of their own and are submitted first
+    heavy = [[d] for d in descs if d.get('heavy')]
+    descs = [d for d in descs if not d.get('heavy')]
+    n = len(descs)
     size = max(1, min(maxsize, n // (nworkers * per_worker) or 1))
-    return [descs[i:i + size] for i in range(0, n, size)]
+    return heavy + [descs[i:i + size] for i in range(0, n, size)]
 
 
 def run_property(prop, tier='quick', seed=0, jobs=None, limit=None, verbose=False):
